@@ -23,6 +23,8 @@ def plan(tier):
             ["--block", "u16", "--kind", "view", "--S", "17", "--depth", "3"],
             ["--block", "u32", "--kind", "view", "--S", "65", "--depth", "2"],
             ["--block", "u64", "--kind", "view", "--S", "129", "--depth", "2"],
+            ["--block", "u8", "--kind", "fault", "--S", "10"],
+            ["--block", "u64", "--kind", "fault", "--S", "129", "--depth", "3"],
         ]
     return [
         ["--block", "u8", "--kind", "owning", "--S", "10", "--full-gallery"],
@@ -35,6 +37,9 @@ def plan(tier):
         ["--block", "u64", "--kind", "owning", "--S", "129", "--depth", "4", "--max-states", "400000"],
         ["--block", "u32", "--kind", "view", "--S", "65", "--depth", "3", "--max-states", "200000"],
         ["--block", "u64", "--kind", "view", "--S", "129", "--depth", "3", "--max-states", "200000"],
+        ["--block", "u8", "--kind", "fault", "--S", "17"],
+        ["--block", "u16", "--kind", "fault", "--S", "33"],
+        ["--block", "u64", "--kind", "fault", "--S", "129", "--depth", "4"],
     ]
 
 
@@ -47,7 +52,8 @@ def run(ctx):
                 "every operation instance of the alphabet (constructors, assign x3, resize(s[,b]), clear, push/pop_back, set/reset/flip all and per bit, reference and iterator writes, "
                 "<<= >>= << >> by {0,1,3,w/2,w-1,w,w+1,2w,2w+1,size-1,size,size+1}, &= |= ^= & | ^ swap against an operand gallery, ~, copy, move, view round trip) applied to every reachable state; "
                 "oracle std::vector<bool>; in every new state all queries (size empty count any all none [] at front back iteration x5 block_count == != copy move unused-bit invariant). "
-                "narrow blocks to fixpoint, wide blocks depth-bounded (see notes). distinct_nontrivial = distinct raw states reached")
+                "narrow blocks to fixpoint, wide blocks depth-bounded (see notes). Fault part: a bitset over an allocator whose allocate() is a throw point; resize/assign/push_back/copy/reserve "
+                "are also run with the k-th allocation failing for every k; afterwards block_count, the unused-bit invariant and all queries must be consistent. distinct_nontrivial = distinct raw states reached")
     ctx.stats["distinct_nontrivial"] = ctx.stats.get("states", 0)
     ctx.stats["evaluations"] = ctx.stats.get("transitions", 0)
     ctx.assumptions += [
